@@ -500,11 +500,17 @@ pub fn execute_l2(sc: &Scenario, mode: Mode, tag: &str, mut trace: Option<&mut V
   for op in &sc.ops {
     let planned = plan_op(&mut sess, op, &mut plan_rng, &mut stats);
     let mut disk = Some(planned.disk);
+    let planned_labels: Vec<String> = planned.frames.iter().filter_map(|f| if let Step::Frame { label, .. } = f { Some(label.clone()) } else { None }).collect();
     let is_mutation = !matches!(op, Op::Query { .. });
     for f in planned.frames {
       script.push_back((disk.take().unwrap_or_default(), f));
     }
-    if is_mutation && (mode == Mode::C10 || fifo || plan_rng.chance(1, 3)) {
+    // didCreateFiles makes the server read the file from disk when it *processes* the notification;
+    // the client therefore lets the server drain before it touches the disk again (otherwise the
+    // simulated editor itself races with the server and the client's model of the server's inputs
+    // is wrong — a harness artefact, found at seed 600)
+    let reads_disk = matches!(planned_labels.as_slice(), l if l.iter().any(|x| x == "didCreateFiles"));
+    if is_mutation && (mode != Mode::C11 || fifo || reads_disk || plan_rng.chance(1, 3)) {
       script.push_back((Vec::new(), Step::Barrier { check: true, label: format!("after {}", op.kind()) }));
     } else if is_mutation {
       // C11: notifications and requests are pipelined freely (a writer queued between two readers
